@@ -9,6 +9,9 @@ Lemma pop_go_skeleton :
   skel_bls_multisig_BLSGeneratePOP = [Guard ".(*prKeyBLSBLS12381)"; Call ".Sign("; Call "Encode()"; Call "popKMAC"].
 Proof. split; reflexivity. Qed.
 
+Lemma return_counts_pop : (nret_bls_multisig_BLSVerifyPOP, nret_bls_multisig_BLSGeneratePOP) = (2, 2)%nat.
+Proof. reflexivity. Qed.
+
 (* string-level separation: no application tag makes the signature KMAC key equal to the PoP key *)
 Theorem pop_key_never_a_sig_key : forall tag : list N, sig_key tag <> pop_key.
 Proof.
